@@ -4,7 +4,7 @@ from typing import Optional
 from ..core import Report
 from ..fjfront import Stl
 from ..pyfacts import Repo
-from ..stlrules import rule_closure, rule_extent, rule_alias, rule_cell_width, rule_ptr_stride, rule_scratch, rule_sp
+from ..stlrules import rule_closure, rule_extent, rule_alias, rule_cell_width, rule_ptr_stride, rule_scratch, rule_sp, rule_const_fits
 
 P = 'flipjump/stl/hex/pointers/'
 FILES = ['flipjump/stl/ptrlib.fj', P + 'basic_pointers.fj', P + 'read_pointers.fj', P + 'write_pointers.fj', P + 'xor_to_pointer.fj',
@@ -22,6 +22,7 @@ def check(rep: Report, repo: Optional[Repo] = None) -> None:
     rule_cell_width(rep, stl)
     rule_scratch(rep, stl, 'C08', FILES, 20)
     rule_alias(rep, stl, 'C08', FILES, 2)
+    rule_const_fits(rep, stl, 'C08', FILES, 6)
     rep.assumptions.append('footprints assume generic position: distinct symbolic operands of a compile-time `==` / `!=` aliasing test denote distinct variables')
     rep.not_decided.append('that a dereference touches exactly the pointed cell and restores the shared to_flip/to_jump ops (value-level)')
 
